@@ -644,12 +644,12 @@ class Glob(Generic[AnyStr]):
             else:
                 scandir = os.path.join(self.root_dir, curdir) if curdir else self.root_dir
 
-            # Python will never return . or .., so fake it.
-            for special in self.specials:
-                yield special, True, True, False
-
             try:
                 with os.scandir(scandir) as scan:
+                    # Python will never return . or .., so fake it (only once we know the directory can be listed).
+                    for special in self.specials:
+                        yield special, True, True, False
+
                     for f in scan:
                         try:
                             hidden = self._is_hidden(f.name)  # type: ignore[arg-type]
